@@ -1,7 +1,258 @@
 import KM.Driver.Core
-/-! Driver for C15 (stub until the property's model is built). -/
+import KM.Model.Storage
+import KM.Gen.C15
+/-! Driver for C15: a stateful interpreter of the storage model (users, blobs = profile ids and
+signed data are numbers) printing the same canonical digests as the Go harness, and a judge
+that applies the predicates of `c15_sync_exact` / `c15_sync_atomic` / `c15_outage_readonly`
+to what the real code left in the two databases. -/
 namespace KM.Driver.C15
+open KM.Util KM.Storage KM.SiteC15
 
-def handler (_mode : String) : Option Handler := none
+abbrev St := State Nat Nat Nat
+
+structure DS where
+  st : St
+  seenU : List Nat
+  seenS : List (Nat × Nat)
+
+def DS.init : DS := ⟨State.init, [], []⟩
+
+def leNat (a b : Nat) : Bool := a ≤ b
+def lePair (a b : Nat × Nat) : Bool := a.1 < b.1 || (a.1 == b.1 && a.2 ≤ b.2)
+
+def sortedU (l : List Nat) : List Nat := (l.eraseDups).mergeSort leNat
+def sortedS (l : List (Nat × Nat)) : List (Nat × Nat) := (l.eraseDups).mergeSort lePair
+
+def digestStore (tag : String) (d : DS) (s : Store Nat Nat Nat) : String :=
+  let us := (sortedU d.seenU).filterMap fun u => (s.users u).map fun b => s!"{u}:{b}"
+  let ss := (sortedS d.seenS).filterMap fun k =>
+    (s.signed k).map fun r => s!"{k.1}/{k.2}:{r.data}@{r.exp - d.st.now}"
+  s!"{tag}[{",".intercalate us}][{",".intercalate ss}]"
+
+def digest (d : DS) : String :=
+  digestStore "P" d d.st.primary ++ " " ++ digestStore "C" d d.st.cache
+
+/-- number of rows (users + signed records) the cache holds -/
+def cacheUsers (d : DS) : Nat :=
+  ((sortedU d.seenU).filter fun u => (d.st.cache.users u).isSome).length +
+  ((sortedS d.seenS).filter fun k => (d.st.cache.signed k).isSome).length
+
+/-- statement list of the synchronisation in the current state -/
+def stepsOf (d : DS) : List (Step Nat Nat Nat) := expand syncShape d.st.rowsU d.st.rowsS
+
+def letter : Step Nat Nat Nat → Char
+  | .srcQuery => 'q'
+  | .srcNext _ _ => 'n'
+  | .begin => 'B'
+  | .prepare => 'P'
+  | .write .stmt _ _ => 'X'
+  | .write _ .exec _ => 'E'
+  | .write _ .query _ => 'Q'
+  | .commit => 'C'
+
+/-- does a fault at statement k make copyDBIntoSQLite return an error? -/
+def faultErr : Nat → List (Step Nat Nat Nat) → Bool
+  | _, [] => false
+  | 0, s :: _ => match s with
+    | .srcNext false _ => false
+    | _ => true
+  | k+1, _ :: r => faultErr k r
+
+def semOf (mode : String) : Option TxSem :=
+  if mode == "pre" then some ⟨false, false⟩
+  else if mode == "post" then some ⟨false, true⟩
+  else none
+
+def word (b : Bool) : String := if b then "err" else "ok"
+
+def applyOp (d : DS) (o : Op Nat Nat Nat) : DS := { d with st := stepOp d.st o }
+
+/-! routes of the outage matrix: (name printed by the harness, handler function) -/
+def mutatingRoutes : List (String × String) :=
+  [("u2fRegResp", "u2fRegisterResponse"), ("u2fRegReq", "u2fRegisterRequest"),
+   ("genTOTP", "GenerateNewTOTP"), ("valTOTP", "validateNewTOTP"), ("mgTOTP", "totpTokenManagerHandler"),
+   ("waRegBegin", "webauthnBeginRegistration"), ("waRegFinish", "webauthnFinishRegistration"),
+   ("mgU2F", "u2fTokenManagerHandler"), ("bootstrapAuth", "BootstrapOtpAuthHandler"),
+   ("addUser", "addUserHandler"), ("genBootstrap", "generateBootstrapOTP")]
+
+def classOf (fn : String) : GuardClass :=
+  match KM.Gen.C15.guardTable.filter (fun r => r.1 == fn.toList) with
+  | [r] => r.2.2
+  | _ => .unknown
+
+def hasU2F (pid : Nat) : Bool := [1, 4, 5, 7].contains (pid % 8)
+def hasTOTP (pid : Nat) : Bool := [2, 4, 6, 7].contains (pid % 8)
+
+def effectToken (c : GuardClass) (writable : Bool) : String :=
+  match handlerEffect c true writable with
+  | .refused => "refused"
+  | .writeFailed => "failed"
+  | .wroteFresh => "ok"
+  | .wroteStale => "ok"
+
+def outage (d : DS) (mode : String) (u pid : Nat) : DS × String :=
+  let d1 : DS := { d with seenU := u :: d.seenU }
+  let d2 := applyOp (applyOp d1 (.save u pid)) (.sync ⟨false, false⟩ none)
+  if mode == "up" then (d2, s!"ok sanity | {digest d2}")
+  else
+    let writable := mode != "down"
+    let auth := (if hasTOTP pid then ["authTOTP=ok"] else []) ++
+      (if hasU2F pid then ["u2fSignReq=ok", "waAuthBegin=ok", "waAuthFinish=ok"] else [])
+    let muts := mutatingRoutes.map fun r => s!"{r.1}={effectToken (classOf r.2) writable}"
+    let stale := (mutatingRoutes.any fun r => handlerEffect (classOf r.2) true writable == .wroteStale) ||
+      (hasU2F pid && handlerEffect (classOf "webauthnAuthFinish") true writable == .wroteStale)
+    let del := effectToken (classOf "deleteUserHandler") writable
+    let d3 := if del == "ok" then applyOp d2 (.delete u) else d2
+    (d3, s!"ok unchanged={boolStr (!stale)} {" ".intercalate (auth ++ muts)} deleteUser={del} | {digest d2} | {digest d3}")
+
+def stale (d : DS) (mode : String) (u old new : Nat) : DS × String :=
+  if !hasU2F old || !(mode == "t0" || mode == "slow" || mode == "down") then (d, "bad-op")
+  else
+    let d1 : DS := { d with seenU := u :: d.seenU }
+    let d2 := applyOp (applyOp (applyOp d1 (.save u old)) (.sync ⟨false, false⟩ none)) (.save u new)
+    (d2, s!"ok begin=200 finish=200 primary={new} | {digest d2}")
+
+def model (d : DS) : List String → DS × String
+  | ["reset"] => (DS.init, s!"ok {digest DS.init}")
+  | ["add", u, p] =>
+    match u.toNat?, p.toNat? with
+    | some u, some p =>
+      let d' := applyOp { d with seenU := u :: d.seenU } (.save u p)
+      (d', s!"ok rt=1 {digest d'}")
+    | _, _ => (d, "bad-op")
+  | ["del", u] =>
+    match u.toNat? with
+    | some u => let d' := applyOp d (.delete u); (d', s!"ok {digest d'}")
+    | _ => (d, "bad-op")
+  | ["ssave", u, t, did, off] =>
+    match u.toNat?, t.toNat?, did.toNat?, off.toInt? with
+    | some u, some t, some did, some off =>
+      let d' := applyOp { d with seenS := (u, t) :: d.seenS } (.saveSigned u t ⟨did, d.st.now + off⟩)
+      (d', s!"ok {digest d'}")
+    | _, _, _, _ => (d, "bad-op")
+  | ["sdel", u, t] =>
+    match u.toNat?, t.toNat? with
+    | some u, some t => let d' := applyOp d (.deleteSigned u t); (d', s!"ok {digest d'}")
+    | _, _ => (d, "bad-op")
+  | ["tick", n] =>
+    match n.toNat? with
+    | some n => let d' := applyOp d (.tick n); (d', s!"ok {digest d'}")
+    | _ => (d, "bad-op")
+  | ["sync", "-"] =>
+    let steps := stepsOf d
+    let d' := applyOp d (.sync ⟨false, false⟩ none)
+    (d', s!"ok n={steps.length} tr={String.ofList (steps.map letter)} cl={cacheUsers d'}/{cacheUsers d'} {digest d'}")
+  | ["sync", k, mode] =>
+    match k.toNat?, semOf mode with
+    | some k, some sem =>
+      let steps := stepsOf d
+      let d' := applyOp d (.sync sem (some k))
+      (d', s!"{word (faultErr k steps)} hit={boolStr (k < steps.length)} {digest d'}")
+    | _, _ => (d, "bad-op")
+  | ["fsync", mode] =>
+    match semOf mode with
+    | some sem =>
+      let steps := stepsOf d
+      let res := (List.range steps.length).map fun k =>
+        let d' := applyOp d (.sync sem (some k))
+        s!"{k}:{word (faultErr k steps)}:{digestStore "C" d' d'.st.cache}"
+      (d, s!"ok n={steps.length} tr={String.ofList (steps.map letter)} {" ".intercalate res} | {digest d}")
+    | none => (d, "bad-op")
+  | ["outage", mode, u, pid] =>
+    match u.toNat?, pid.toNat? with
+    | some u, some pid =>
+      if mode == "up" || mode == "t0" || mode == "slow" || mode == "down" then outage d mode u pid
+      else (d, "bad-op")
+    | _, _ => (d, "bad-op")
+  | ["flap", route, u, pid] =>
+    match u.toNat?, pid.toNat? with
+    | some u, some pid =>
+      if !(["mgU2F", "genTOTP", "addUser", "deleteUser"].contains route) || (route == "mgU2F" && !hasU2F pid)
+      then (d, "bad-op") else
+      let d2 := applyOp (applyOp { d with seenU := u :: d.seenU } (.save u pid)) (.sync ⟨false, false⟩ none)
+      (d2, s!"ok flap | {digest d2}")
+    | _, _ => (d, "bad-op")
+  | ["stale", mode, u, o, n] =>
+    match u.toNat?, o.toNat?, n.toNat? with
+    | some u, some o, some n => stale d mode u o n
+    | _, _, _ => (d, "bad-op")
+  | _ => (d, "bad-op")
+
+/-! ## judge -/
+
+/-- `X[a,b][c,d]` ↦ (user entries, signed entries) -/
+def parseDigest (s : String) : Option (List String × List String) :=
+  if s.length < 5 then none else
+  let body := ((s.drop 2).dropEnd 1).toString
+  match body.splitOn "][" with
+  | [us, ss] =>
+    some ((us.splitOn ",").filter (· ≠ ""), (ss.splitOn ",").filter (· ≠ ""))
+  | _ => none
+
+/-- signed entry `u/t:d@rel` is unexpired iff rel > 0 -/
+def relOf (e : String) : Option Int :=
+  match e.splitOn "@" with
+  | [_, r] => r.toInt?
+  | _ => none
+
+def clean (l : List String) : Bool := l.all fun e => !(e.contains '!')
+
+/-- the predicate of `c15_sync_exact` on observed digests: the cache holds exactly the
+primary's users and its unexpired signed records, every blob intact -/
+def mirrors (p c : List String × List String) : Bool :=
+  clean p.1 && clean p.2 && clean c.1 && clean c.2 &&
+  c.1 == p.1 &&
+  c.2 == p.2.filter (fun e => match relOf e with | some r => decide (0 < r) | none => true)
+
+def judge : List String → String
+  | ["synced", p, c] =>
+    match parseDigest p, parseDigest c with
+    | some p, some c => if mirrors p c then "ok" else "viol cache-differs-from-primary"
+    | _, _ => "bad-op"
+  | ["atomic", before, p, got] =>
+    -- the predicate of `c15_sync_atomic`: previous content, or the mirror of the primary
+    match parseDigest before, parseDigest p, parseDigest got with
+    | some b, some p, some g =>
+      if g == b then "ok" else if mirrors p g then "ok" else "viol cache-is-neither-previous-nor-new"
+    | _, _, _ => "bad-op"
+  | ["intact", p, c] =>
+    match parseDigest p, parseDigest c with
+    | some p, some c =>
+      if clean p.1 && clean p.2 && clean c.1 && clean c.2 then "ok" else "viol stored-row-corrupt"
+    | _, _ => "bad-op"
+  | ["rt", v] => if v == "1" then "ok" else if v == "0" then "viol profile-not-read-back-identical" else "bad-op"
+  | ["cl", v] =>
+    match v.splitOn "/" with
+    | [a, b] => if a == b && a.toNat?.isSome then "ok" else "viol cached-profile-differs"
+    | _ => "bad-op"
+  | "outage" :: mode :: unchanged :: toks =>
+    if !(mode == "t0" || mode == "slow" || mode == "down") then "bad-op" else
+    let bad := toks.filter fun t =>
+      match t.splitOn "=" with
+      | [name, v] =>
+        if name == "deleteUser" then !(v == "failed" || (mode != "down" && v == "ok"))
+        else if (mutatingRoutes.map (·.1)).contains name then v != "refused"
+        else if ["authTOTP", "u2fSignReq", "waAuthBegin", "waAuthFinish"].contains name then v != "ok"
+        else true
+      | _ => true
+    if unchanged != "unchanged=1" then "viol rows-changed-during-outage"
+    else if bad.isEmpty then "ok" else s!"viol {" ".intercalate bad}"
+  | "flap" :: toks =>
+    -- primary lost at the k-th statement of a request: the row is the old one unless the handler
+    -- reported success, never undecodable, and the cache is untouched
+    let bad := toks.filter fun t =>
+      match t.splitOn ":" with
+      | [_, code, row, cacheSame] =>
+        cacheSame != "1" || row == "corrupt" || (code != "ok" && row != "old")
+      | _ => true
+    if bad.isEmpty then "ok" else s!"viol outage-mid-request {" ".intercalate bad}"
+  | ["stale", new, primary] =>
+    if primary == new then "ok" else s!"viol stale-profile-written-over-primary:{primary}"
+  | _ => "bad-op"
+
+def handler (mode : String) : Option Handler :=
+  if mode == "model" then some { σ := DS, init := DS.init, step := model }
+  else if mode == "judge" then some (.pure judge)
+  else none
 
 end KM.Driver.C15
